@@ -39,21 +39,34 @@ Qed.
 Lemma phys_lines_shape text : Forall phys_shape (phys_lines text).
 Proof. unfold phys_lines. apply (phys_lines_aux_shape (length text)); [lia|reflexivity]. Qed.
 
-(* the reader's state machine stays away from the error state while it sees no line break *)
+(* the reader's state machine stays away from the error state while it sees no line break and no field grows beyond
+   csv.field_size_limit() (Csv.field_limit = 131072; Csv.add raises from there on, as CPython's parse_add_char).
+   [calmk k s]: not in an end-of-line / error state, and the pending field holds at most k characters *)
 Definition calm (s : Csv.pst) : Prop :=
   match Csv.state s with Csv.EatCRNL | Csv.Err => False | _ => True end.
+Definition calmk (k : N) (s : Csv.pst) : Prop := calm s /\ Csv.flen s <= k.
 
-Lemma step_calm s c : calm s -> is_nl c = false -> calm (Csv.step s (Some c)).
+Lemma add_below s c next : Csv.flen s < Csv.field_limit ->
+  Csv.add s c next = Csv.mk next (c :: Csv.pend s) (Csv.acc s) (Csv.flen s + 1).
+Proof. intros H. unfold Csv.add. apply N.leb_gt in H. rewrite H. reflexivity. Qed.
+
+Lemma step_calm k s c : calmk k s -> k < Csv.field_limit -> is_nl c = false -> calmk (k + 1) (Csv.step s (Some c)).
 Proof.
-  destruct s as [st p a]. unfold calm. cbn [Csv.state]. intros Hs Hc.
+  destruct s as [st p a n]. unfold calmk, calm. cbn [Csv.state Csv.flen]. intros [Hs Hn] Hk Hc.
+  assert (Hlt : n < Csv.field_limit) by lia.
   destruct st; try contradiction; unfold Csv.step, Csv.start_field; cbn [Csv.state]; rewrite ?Hc;
-    destruct (c =? QUOTE); destruct (c =? COMMA); cbn; exact I.
+    destruct (c =? QUOTE); destruct (c =? COMMA);
+    rewrite ?add_below by exact Hlt; unfold Csv.save, Csv.goto; cbn [Csv.state Csv.flen Csv.pend Csv.acc]; split; try exact I; lia.
 Qed.
 
-Lemma run_calm l : forall s, calm s -> none is_nl l -> calm (Csv.run s l).
+Lemma run_calm l : forall k s, calmk k s -> none is_nl l -> k + N.of_nat (length l) <= Csv.field_limit ->
+  calmk (k + N.of_nat (length l)) (Csv.run s l).
 Proof.
-  induction l as [|c l IH]; intros s Hs Hl; [exact Hs|]. apply none_cons in Hl. destruct Hl as [Hc Hl].
-  rewrite CsvProofs.run_cons. apply IH; [apply step_calm; assumption|exact Hl].
+  induction l as [|c l IH]; intros k s Hs Hl Hk.
+  - cbn [length Csv.run fold_left]. rewrite N.add_0_r. exact Hs.
+  - apply none_cons in Hl. destruct Hl as [Hc Hl]. rewrite CsvProofs.run_cons.
+    replace (k + N.of_nat (length (c :: l))) with ((k + 1) + N.of_nat (length l)) by (cbn [length]; lia).
+    apply IH; [apply step_calm; [exact Hs|cbn [length] in Hk; lia|exact Hc]|exact Hl|cbn [length] in Hk; lia].
 Qed.
 
 Lemma parse_of_state s : Csv.state (Csv.step s None) <> Csv.Err ->
@@ -68,40 +81,50 @@ Proof. intros H. cbv zeta. destruct (Csv.state (Csv.step s None)); try discrimin
 
 Lemma calm_eol s : calm s -> Csv.state (Csv.step s None) <> Csv.Err.
 Proof.
-  destruct s as [st p a]. unfold calm. cbn [Csv.state]. intros Hs.
+  destruct s as [st p a n]. unfold calm. cbn [Csv.state]. intros Hs.
   destruct st; try contradiction; unfold Csv.step, Csv.start_field; cbn; discriminate.
 Qed.
 
-Lemma calm_lf_eol s : calm s -> Csv.state (Csv.step (Csv.step s (Some LF)) None) <> Csv.Err.
+Lemma calm_lf_eol s : calm s -> Csv.flen s < Csv.field_limit -> Csv.state (Csv.step (Csv.step s (Some LF)) None) <> Csv.Err.
 Proof.
-  destruct s as [st p a]. unfold calm. cbn [Csv.state]. intros Hs.
-  destruct st; try contradiction; unfold Csv.step, Csv.start_field; cbn; discriminate.
+  destruct s as [st p a n]. unfold calm. cbn [Csv.state Csv.flen]. intros Hs Hn.
+  destruct st; try contradiction; unfold Csv.step, Csv.start_field; cbn [Csv.state is_nl N.eqb LF CR QUOTE COMMA Pos.eqb orb];
+    rewrite ?add_below by exact Hn; cbn; discriminate.
 Qed.
 
-Theorem parse_phys_line ln : phys_shape ln -> Csv.parse ln <> None.
+(* a line is short when it has at most field_limit characters, terminator included: then no field can exceed the limit *)
+Definition short_line (ln : list N) : Prop := N.of_nat (length ln) <= Csv.field_limit.
+
+Theorem parse_phys_line ln : phys_shape ln -> short_line ln -> Csv.parse ln <> None.
 Proof.
-  intros [body [Hb [->| ->]]]; unfold Csv.parse; apply parse_of_state.
-  - unfold Csv.run. rewrite fold_left_app. cbn [fold_left]. apply calm_lf_eol. apply (run_calm body Csv.init); [exact I|exact Hb].
-  - apply calm_eol. apply (run_calm body Csv.init); [exact I|exact Hb].
+  intros [body [Hb [->| ->]]] Hshort; unfold short_line in Hshort; unfold Csv.parse; apply parse_of_state.
+  - rewrite app_length in Hshort. cbn [length] in Hshort.
+    unfold Csv.run. rewrite fold_left_app. cbn [fold_left].
+    destruct (run_calm body 0 Csv.init) as [H1 H2]; [split; [exact I|cbn; lia]|exact Hb|lia|].
+    apply calm_lf_eol; [exact H1|fold (Csv.run Csv.init body); lia].
+  - destruct (run_calm body 0 Csv.init) as [H1 _]; [split; [exact I|cbn; lia]|exact Hb|lia|]. apply calm_eol. exact H1.
 Qed.
 
-(* csv.Error cannot be raised by a line the text-mode iterator yields (NUL characters and over-long fields are outside
-   the transcription of csv.reader): the model never answers "the task raises" on a text *)
-Theorem no_csv_error c text : crashes c (parse_lines text) = false.
+(* csv.Error cannot be raised by a physical line of at most 131072 characters (NUL characters are outside the
+   transcription of csv.reader): on such a text the model never answers "the task raises" *)
+Definition short_lines (text : list N) : Prop := Forall short_line (data_lines text).
+
+Theorem no_csv_error c text : short_lines text -> crashes c (parse_lines text) = false.
 Proof.
-  unfold crashes. destruct (existsb _ _) eqn:E; [|reflexivity]. exfalso.
+  intros Hshort. unfold crashes. destruct (existsb _ _) eqn:E; [|reflexivity]. exfalso.
   apply existsb_exists in E. destruct E as [l [Hl E]]. rewrite selected_abs in Hl.
   unfold sel_lines in Hl. apply filter_In in Hl. destruct Hl as [Hl _].
   destruct (in_abs_lines _ _ Hl) as (_ & Hi & _).
   unfold parse_lines in *. rewrite map_length in Hi.
   rewrite (nth_indep _ None (Csv.parse [])) in E by (rewrite map_length; exact Hi).
   rewrite map_nth in E.
+  assert (Hin : In (nth (N.to_nat (N.pred (fst l))) (data_lines text) []) (data_lines text)) by (apply nth_In; exact Hi).
   assert (Hs : phys_shape (nth (N.to_nat (N.pred (fst l))) (data_lines text) [])).
   { pose proof (phys_lines_shape text) as F. rewrite Forall_forall in F. apply F.
-    assert (Hin : In (nth (N.to_nat (N.pred (fst l))) (data_lines text) []) (data_lines text)) by (apply nth_In; exact Hi).
     assert (Htl : forall (x : list N) L, In x (tl L) -> In x L) by (intros x [|y L] H; [exact H|right; exact H]).
     apply Htl. exact Hin. }
-  apply parse_phys_line in Hs. destruct (Csv.parse _); [discriminate|congruence].
+  unfold short_lines in Hshort. rewrite Forall_forall in Hshort.
+  apply parse_phys_line in Hs; [|apply Hshort; exact Hin]. destruct (Csv.parse _); [discriminate|congruence].
 Qed.
 
 (* ---------------------------------------------------------------------------------------------------------- *)
@@ -112,9 +135,10 @@ Theorem wellformed_file (names : list (list N)) (rows : list (list (list N))) :
   Forall (none (fun ch => (ch =? COMMA) || is_nl ch)) names ->       (* names without ',' / CR / LF *)
   edge_clean (join_with [COMMA] names) ->                              (* header line without surrounding blanks *)
   Forall (fun r => r <> [] /\ Forall (none is_nl) r) rows ->            (* cells without line breaks *)
+  Forall (Forall CsvProofs.flen_ok) rows ->                            (* cells of at most csv.field_size_limit() characters *)
   header_of (render_file names rows) = names /\ parse_lines (render_file names rows) = map Some rows.
 Proof.
-  intros Hne Hnames Hedge Hrows.
+  intros Hne Hnames Hedge Hrows Hlen.
   assert (Hnl : none is_nl (join_with [COMMA] names)).
   { apply none_join; [reflexivity|]. eapply Forall_impl; [|exact Hnames]. intros n Hn.
     eapply none_weaken; [|exact Hn]. intros ch Hc. cbv beta. rewrite Hc. apply orb_true_r. }
@@ -125,11 +149,11 @@ Proof.
     intros ch Hc. cbv beta. rewrite N.eqb_sym, Hc. reflexivity.
   - rewrite CsvProofs.csv_physical_lines by (eapply Forall_impl; [|exact Hrows]; intros r [_ H]; exact H).
     rewrite map_map. apply map_ext_in. intros r Hr. rewrite Forall_forall in Hrows. destruct (Hrows r Hr) as [Hr1 _].
-    apply CsvProofs.roundtrip. exact Hr1.
+    rewrite Forall_forall in Hlen. apply CsvProofs.roundtrip; [exact Hr1|apply Hlen; exact Hr].
 Qed.
 
 Corollary wellformed_run c names rows :
   names <> [] -> Forall (none (fun ch => (ch =? COMMA) || is_nl ch)) names -> edge_clean (join_with [COMMA] names) ->
-  Forall (fun r => r <> [] /\ Forall (none is_nl) r) rows ->
+  Forall (fun r => r <> [] /\ Forall (none is_nl) r) rows -> Forall (Forall CsvProofs.flen_ok) rows ->
   e2e_run c (render_file names rows) = e2e_core c names (map Some rows).
-Proof. intros H1 H2 H3 H4. unfold e2e_run. destruct (wellformed_file names rows H1 H2 H3 H4) as [-> ->]. reflexivity. Qed.
+Proof. intros H1 H2 H3 H4 H5. unfold e2e_run. destruct (wellformed_file names rows H1 H2 H3 H4 H5) as [-> ->]. reflexivity. Qed.
